@@ -258,7 +258,7 @@ def main(tier, seed):
     out.evaluations = out.evaluations - len(items)  # pmap counts items; run_seq counts sequences
     vs, nsig = runner.violations_json(sp, out)
     cov = runner.coverage_from(out, stats, sp, (
-        "all states of a 17-letter alphabet to depth %d (%d states); every ordered pair (d, other) x every "
+        "all states of a 23-letter alphabet to depth %d (%d states); every ordered pair (d, other) x every "
         "operation sequence up to the stated length over %s, each step compared with multiset arithmetic on "
         "strict observations; distinct = (pair, sequence); non-trivial = the sequence moved at least one record"
         % (d_states, len(hists), OPS)),
